@@ -27,7 +27,9 @@ type sched struct {
 	cur   *gor
 	main  *gor
 	runq  []*gor
+	pend  []*gor // goroutines started by the harness in race mode that have not begun yet (race.go)
 	all   []*gor
+	beforeBlock func() // race mode: decides whether a pending goroutine starts now
 	dead  bool        // the path is being torn down
 	abort interface{} // reason (pathAbort or crash) raised on a non-main goroutine
 }
@@ -51,6 +53,10 @@ func (s *sched) switchAway(self *gor, park bool) {
 	if len(s.runq) > 0 {
 		next = s.runq[0]
 		s.runq = s.runq[1:]
+	} else if len(s.pend) > 0 {
+		// nobody else can run: a goroutine that has not begun yet starts now
+		next = s.pend[0]
+		s.pend = s.pend[1:]
 	}
 	if next == nil {
 		if !park {
@@ -87,6 +93,9 @@ func (s *sched) switchAway(self *gor, park bool) {
 }
 
 func (s *sched) block(self *gor) {
+	if s.beforeBlock != nil {
+		s.beforeBlock()
+	}
 	s.switchAway(self, true)
 }
 
@@ -96,10 +105,14 @@ func (s *sched) ready(g *gor) {
 
 // spawn starts fn as a new interpreted goroutine; it first runs when the
 // current goroutine blocks.
-func (s *sched) spawn(i *interpreter, fn func(g *gor)) {
+func (s *sched) spawn(i *interpreter, fn func(g *gor), gated bool) *gor {
 	g := &gor{id: len(s.all), wake: make(chan struct{}, 1)}
 	s.all = append(s.all, g)
-	s.ready(g)
+	if gated {
+		s.pend = append(s.pend, g)
+	} else {
+		s.ready(g)
+	}
 	go func() {
 		<-g.wake
 		if s.dead {
@@ -136,12 +149,16 @@ func (s *sched) spawn(i *interpreter, fn func(g *gor)) {
 		}()
 		fn(g)
 	}()
+	return g
 }
 
 // quiesce lets every runnable goroutine run until all are blocked or finished.
 // Called on the main goroutine when the harness returns.
 func (s *sched) quiesce() {
-	for len(s.runq) > 0 {
+	for len(s.runq) > 0 || len(s.pend) > 0 {
+		if len(s.runq) == 0 {
+			s.runq, s.pend = append(s.runq, s.pend[0]), s.pend[1:]
+		}
 		s.ready(s.main)
 		s.switchAway(s.main, true)
 	}
@@ -183,6 +200,11 @@ func (i *interpreter) chanSend(fr *frame, ch *channel, v value) {
 	if ch.closed {
 		panic(i.rtPanic("send on closed channel"))
 	}
+	if i.race != nil {
+		// happens-before edge only: channel operations are not preemption points (jet's
+		// only channels connect a parser to its own lexer goroutine)
+		i.raceRelease(ch)
+	}
 	if len(ch.recvq) > 0 {
 		r := ch.recvq[0]
 		ch.recvq = ch.recvq[1:]
@@ -204,6 +226,9 @@ func (i *interpreter) chanSend(fr *frame, ch *channel, v value) {
 }
 
 func (i *interpreter) chanRecv(fr *frame, ch *channel) (value, bool) {
+	if i.race != nil && ch != nil {
+		defer i.raceAcquire(ch)
+	}
 	s := i.sched
 	self := s.cur
 	if ch == nil {
@@ -243,6 +268,7 @@ func (i *interpreter) chanClose(ch *channel) {
 		panic(i.rtPanic("close of closed channel"))
 	}
 	ch.closed = true
+	i.raceRelease(ch)
 	s := i.sched
 	for _, r := range ch.recvq {
 		r.val, r.ok = nil, false
